@@ -103,10 +103,48 @@ fn build(seq: &[usize], eol: &str, final_eol: bool) -> String {
     s
 }
 
+/// The public header recogniser on its own: exactly `[Name]` for the eleven known names.
+fn header_recogniser(ctx: &mut Ctx) {
+    use rosu_map::section::Section;
+    let known = |s: Section| -> u8 {
+        match s {
+            Section::General => 0,
+            Section::Editor => 1,
+            Section::Metadata => 2,
+            Section::Difficulty => 3,
+            Section::Events => 4,
+            Section::TimingPoints => 5,
+            Section::Colors => 6,
+            Section::HitObjects => 7,
+            Section::Variables => 8,
+            Section::CatchTheBeat => 9,
+            Section::Mania => 10,
+        }
+    };
+    let mut lines: Vec<String> = ALPHABET.iter().map(|l| l.trim_end().to_string()).collect();
+    for n in crate::obs::recorder::SECTION_NAMES {
+        for (pre, post) in [("[", "]"), ("[[", "]]"), ("[", "]]"), ("[[", "]"), ("", "]"), ("[", ""), ("[ ", "]"), ("[", " ]"), ("(", ")"), ("[", "]\u{3000}")] {
+            lines.push(format!("{pre}{n}{post}"));
+            lines.push(format!("{pre}{}{post}", n.to_lowercase()));
+        }
+    }
+    for (k, l) in lines.iter().enumerate() {
+        let exp = crate::obs::recorder::header_of(l);
+        let got = Section::try_from_line(l).map(known);
+        ctx.count("header_recogniser_lines");
+        if got != exp {
+            ctx.violation("header_recognition", format!("Section::try_from_line({l:?}) = {got:?}, the format says {exp:?}"), 7 << 56 | k as u64, l.as_bytes());
+        }
+    }
+}
+
 pub fn run(ctx: &mut Ctx) {
     if let Some(lit) = ctx.literal.clone() {
         check_bytes(ctx, 0, &lit, "literal");
         return;
+    }
+    if ctx.shard == 0 {
+        header_recogniser(ctx);
     }
     let n = ALPHABET.len() as u64;
     let max_len: u32 = if ctx.quick() { 3 } else { 4 };
